@@ -126,34 +126,38 @@ end Builders
 section Retrieve
 open NcVerif.XmlDoc NcVerif.Builders NcVerif.BuildersP NcVerif.Retrieve NcVerif.RetrieveP
 
-/-- get / get-config / dispatch / create-subscription are built only if the server has every capability their arguments
-    depend on: `:with-defaults` for any with-defaults mode, `:url` for a URL source, `:notification` for a subscription. -/
+/-- get / get-config / dispatch / create-subscription / get-schema / rpc / the flowmon power operations / validate and
+    copy-config with element arguments — with Model/Builders that is EVERY entry of `manager.OPERATIONS` — are built only if the
+    server has every capability their arguments depend on: `:with-defaults` for any with-defaults mode, `:url` for a URL source or
+    target, `:notification` for a subscription, `:validate`, the power-control URIs. -/
 theorem retrieval_built_only_with_capabilities (caps : Caps) (call : Retrieve.Call) (t : XNode)
-    (hf : FilterGood (filterOf call)) (h : Retrieve.build caps call = .ok t) :
+    (hf : FilterGood (filterOf call)) (he : ∀ e ∈ elemArgs call, Good e) (h : Retrieve.build caps call = .ok t) :
     ∀ cap ∈ Retrieve.required call, contains caps (Builders.s cap) = true :=
-  (RetrieveP.build_ok caps call t hf h).2.1
+  (RetrieveP.build_ok caps call t hf he h).2.1
 
 /-- …and a with-defaults mode is on the wire only if the server's with-defaults capability URI lists it: it carries a
     `basic-mode`, and the stripped, lower-cased mode is that basic mode or one of the comma-separated `also-supported` ones. -/
 theorem with_defaults_mode_is_advertised (caps : Caps) (call : Retrieve.Call) (t : XNode) (mode : Str)
-    (hf : FilterGood (filterOf call)) (h : Retrieve.build caps call = .ok t) (hm : wdOf call = some mode) :
+    (hf : FilterGood (filterOf call)) (he : ∀ e ∈ elemArgs call, Good e) (h : Retrieve.build caps call = .ok t) (hm : wdOf call = some mode) :
     contains caps kWithDefaults = true ∧ ∃ cap b, getItem caps kWithDefaults = .ok cap ∧
       dictGet cap.params kBasicMode = some b ∧
       lowerAscii (pyStrip mode) ∈ b :: (match dictGet cap.params kAlsoSupported with | some a => splitOn ',' a | none => []) :=
-  (with_defaults_iff caps mode).mp ((RetrieveP.build_ok caps call t hf h).2.2 mode hm)
+  (with_defaults_iff caps mode).mp ((RetrieveP.build_ok caps call t hf he h).2.2 mode hm)
 
 /-- Contrapositive: a mode the server does not list (or a server without the capability) yields a local refusal, nothing built. -/
 theorem unsupported_mode_builds_nothing (caps : Caps) (call : Retrieve.Call) (mode : Str)
-    (hf : FilterGood (filterOf call)) (hm : wdOf call = some mode) (hg : withDefaultsGate caps mode ≠ none) :
+    (hf : FilterGood (filterOf call)) (he : ∀ e ∈ elemArgs call, Good e) (hm : wdOf call = some mode) (hg : withDefaultsGate caps mode ≠ none) :
     ∃ r, Retrieve.build caps call = .error r := by
   cases hb : Retrieve.build caps call with
   | error r => exact ⟨r, rfl⟩
-  | ok t => exact absurd ((RetrieveP.build_ok caps call t hf hb).2.2 mode hm) hg
+  | ok t => exact absurd ((RetrieveP.build_ok caps call t hf he hb).2.2 mode hm) hg
 
 example : refusal (Retrieve.build (mk ["urn:ietf:params:netconf:capability:with-defaults:1.0?basic-mode=explicit".toList]) (.get none (some "trim".toList)))
     = some .withDefaultsError := by decide +kernel
 example : refusal (Retrieve.build (mk ["urn:ietf:params:netconf:base:1.0".toList]) (.get none (some "explicit".toList)))
     = some (.missingCapability ":with-defaults".toList) := by decide +kernel
+example : refusal (Retrieve.build (mk ["urn:ietf:params:netconf:base:1.0".toList]) .reboot)
+    = some (.missingCapability "urn:liberouter:params:netconf:capability:power-control:1.0".toList) := by decide +kernel
 example : refusal (Retrieve.build (mk ["urn:ietf:params:netconf:base:1.0".toList]) (.subscribe none none none none))
     = some (.missingCapability ":notification".toList) := by decide +kernel
 example : (builtText (Retrieve.build (mk ["urn:ietf:params:netconf:capability:with-defaults:1.0?basic-mode=explicit".toList]) (.getConfig "running".toList none (some " Explicit ".toList)))).isSome = true := by
